@@ -37,10 +37,20 @@ fn on_fresh_thread<T: Send, F: FnOnce() -> T + Send>(f: F) -> T {
 
 fn fixtures(n: usize) -> Fix {
     let wr = [(0.25, 0.75), (0.5, 0.5), (1.0, 0.5), (0.75, 0.25), (0.5, 1.0)];
+    // the two real-valued tables are siblings: copies of one base table, each re-weighted in place by the
+    // same number of set_weight calls (whatever identity or revision a table carries is then the same
+    // for both, while their weights differ)
+    let base: WmcParams<RealSemiring> = WmcParams::new((0..n).map(|v| (VarLabel::new(v as u64), (RealSemiring(1.0), RealSemiring(1.0)))).collect::<HashMap<_, _>>());
+    let mut real = base.clone();
+    let mut real2 = base.clone();
+    for v in 0..n {
+        real.set_weight(VarLabel::new(v as u64), RealSemiring(wr[v].0), RealSemiring(wr[v].1));
+        real2.set_weight(VarLabel::new(v as u64), RealSemiring(wr[(v + 2) % 5].1), RealSemiring(wr[(v + 2) % 5].0));
+    }
     Fix {
         n,
-        real: WmcParams::new((0..n).map(|v| (VarLabel::new(v as u64), (RealSemiring(wr[v].0), RealSemiring(wr[v].1)))).collect::<HashMap<_, _>>()),
-        real2: WmcParams::new((0..n).map(|v| (VarLabel::new(v as u64), (RealSemiring(wr[(v + 2) % 5].1), RealSemiring(wr[(v + 2) % 5].0)))).collect::<HashMap<_, _>>()),
+        real,
+        real2,
         ff1: WmcParams::new((0..n).map(|v| (VarLabel::new(v as u64), (FiniteField::new(3 + v as u128), FiniteField::new(P1 - 2 - v as u128)))).collect::<HashMap<_, _>>()),
         ff2: WmcParams::new((0..n).map(|v| (VarLabel::new(v as u64), (FiniteField::new(5 + v as u128), FiniteField::new(P2 - 4 - v as u128)))).collect::<HashMap<_, _>>()),
         eu: WmcParams::new((0..n).map(|v| (VarLabel::new(v as u64), (ExpectedUtility(0.5, 0.0), ExpectedUtility(0.5, v as f64)))).collect::<HashMap<_, _>>()),
